@@ -16,7 +16,8 @@ CLAIMED = {
         "filter_in_box, filter_feasible, filter_pairwise_distinct_keys, filter_sub_input; the freshness clause is false of the code as it stands "
         "(filter_fresh_counterexample, filterCode_ignores_log) - known finding C17-fresh - with filter_fresh_partial and the documented behaviour filterSpec (filterSpec_fresh, "
         "filterSpec_complete, filterCode_eq_spec_of_fresh) proved. Correspondence: function-level differential on integer lattices (D<=2) and dyadic mesh points (D<=5), plus every "
-        "contraints_check call of traced runs; the Lean predicates are evaluated on the implementation's outputs.",
+        "contraints_check call of traced runs; the Lean predicates are evaluated on the implementation's outputs."
+        " Whole call (Props/C17Opt.lean): search_set_distinct_feasible, poll_set_distinct_feasible, iteration_evaluates_filtered_rows, optimize_candidate_sets; pool runs with plain options replayed through whole.replay.",
    design="5 / C17", technique="Lean 4 theorems over a transcribed filter model + differential correspondence"),
 }
 
@@ -33,7 +34,8 @@ CLAIMED.update({
  "C13": dict(
    text="Theorems (Props/C13.lean) about Ctl.mstep: poll_success_doubles, poll_failure_halves_or_quarters (exact quartering condition), msi_changes_only_in_poll, running_best_good_iff, "
         "msi_le_cap_and_ssi_le_msi (invariant over all reachable states), mesh_le_one, search_mesh_le_mesh, tolmesh_msg_sound; defaults hypotheses (multiplier 2, cap 0, ...) re-proved from the regenerated option values. "
-        "Correspondence: mesh exponents after every poll and at every loop iteration of traced runs vs the model; the update rule evaluated on the observed per-evaluation improvements.",
+        "Correspondence: mesh exponents after every poll and at every loop iteration of traced runs vs the model; the update rule evaluated on the observed per-evaluation improvements."
+        " Whole call (Props/C13Opt.lean, model Optimize.lean): Reach (the states of the loop of one whole call, shown to be exactly the loop exits of oracle streams), optimize_mesh_inv, optimize_default_mesh_bounded, step_mesh_law / optimize_mesh_law (one equation: doubled up to the cap / halved / quartered / unchanged), optimize_tolmesh_sound, optimize_tolmesh_below_user_tol; every pool run replayed through whole.replay (mesh exponents, spree, exit message per iteration); deterministic poll improvements judged against the record of the target wrapper.",
    design="5 / C13", technique="Lean 4 invariant proofs over the mesh-update model + trace-refinement correspondence"),
  "C12": dict(
    text="Theorems (Props/C12.lean) about Log.record/call/add, the FunctionLogger state machine, for all operation sequences: record_cases (exhaustive case analysis), record_coords and runOps_coords_prefix "
@@ -51,12 +53,14 @@ CLAIMED.update({
    text="Theorems (Props/C01.lean): inverse_in_orig_box (the original-space image of ANY internal point lies in the original hard box - clamp after an arbitrary ginv), snap_close, search_box_inside_hard_box, "
         "search_box_nonempty, gridStart_ok_or_error, filter_in_box (C17), and pipeline_calls_in_box: for every sequence of candidate sets and picks (all seeds/landscapes/ES/poll/Sobol outcomes) every evaluated internal point "
         "lies in [lb, ub]. Correspondence: call provenance of traced runs replayed through Pipe.step (each evaluated point is the start point, a row of the model's filtered set, or an earlier point; search-box bounds recomputed "
-        "by the model), x = clamp(ginv(u)) checked on every call; box predicates (Lean inBoxB) on every target call, constraint call, log row and returned solution.",
+        "by the model), x = clamp(ginv(u)) checked on every call; box predicates (Lean inBoxB) on every target call, constraint call, log row and returned solution."
+        " Whole call (Props/C01Opt.lean): optimize_calls_in_box, optimize_logged_points_in_box, optimize_returned_in_box, optimize_returned_x_in_orig_box, optimize_calls_x_in_orig_box on the whole-call model; pool runs with plain options replayed through whole.replay.",
    design="5 / C01", technique="Lean 4 invariant over an oracle-driven pipeline model + provenance trace refinement"),
  "C02": dict(
    text="Theorems (Props/C02.lean): filtered_feasible, pipeline_calls_feasible (for every sequence of candidate sets/picks and every deterministic constraint oracle, every evaluated point is feasible), construct_ok, "
         "construct_rejects_infeasible_start, run_from_construct_feasible. Correspondence: provenance replay through Pipe.step with the constraint answers recorded from the run; the user's constraint is re-asked at every point passed "
-        "to the target and at the returned x; construction with start points infeasible before/after snapping must raise ValueError with zero target calls.",
+        "to the target and at the returned x; construction with start points infeasible before/after snapping must raise ValueError with zero target calls."
+        " Whole call (Props/C02Opt.lean): optimize_calls_feasible, optimize_returned_feasible, infeasible_start_not_initOK on the whole-call model; pool runs with plain options replayed through whole.replay.",
    design="5 / C02", technique="Lean 4 invariant over the pipeline model + provenance trace refinement"),
  "C14": dict(
    text="Theorems (Props/C14.lean), for every dimension and every outcome of the generator's random choices: dirs_det (det = sign(perm) * prod(+-nmax), via Mathlib's determinant of permuted lower-triangular matrices), "
@@ -64,7 +68,8 @@ CLAIMED.update({
         "(polled points pairwise distinct, at most the candidate count), basis_length = 2n, poll_points_form. Correspondence: poll_mads_2n under a scripted random source (exhaustive for the small scopes listed in the evidence, "
         "sampled up to D=6, mesh ratios 1,2,4) vs Poll.basis; Lean predicates on the implementation's basis; every poll step of traced runs (points = incumbent + mesh*direction, each direction once, <= 2D). "
         "Inside the composed whole-run model (Props/C14Run.lean): when the poll set handed to an iteration is the generator's, every point the iteration evaluates is incumbent + mesh_size * (a row of the basis), none twice, at most 2D, "
-        "whatever the filter drops, the acquisition order and the budget do (poll_step_form, poll_step_nodup, poll_step_at_most_2D; run_polls_form for every iteration a run reaches).",
+        "whatever the filter drops, the acquisition order and the budget do (poll_step_form, poll_step_nodup, poll_step_at_most_2D; run_polls_form for every iteration a run reaches)."
+        " Whole call (Props/C14Opt.lean): optimize_poll_form / optimize_polls_form - the poll form at every iteration of the loop of one whole call; pool runs with plain options replayed through whole.replay.",
    design="5 / C14", technique="Lean 4 (Mathlib determinant) proof for all dimensions/draws + scripted-RNG differential"),
  "C04": dict(
    text="Theorems (Props/C04.lean) about Inc.step for every sequence of evaluated points and returned values (any target incl. plateaus/ties, any candidate generation): inc_init, inc_search, inc_poll, inc_reachable "
@@ -84,7 +89,8 @@ CLAIMED.update({
    text="Run level (Props/C19.lean): for every sequence of candidates, GP estimates, re-estimated history values and final quantile values: iterStep_pinv / run_pinv (u = u_best at iteration boundaries; the incumbent pair and every "
         "recorded iterate are pairs the log returned together), reEvalSwap_pinv, finalChoice_pinv (the returned point is a recorded iterate with its own value). Container level (Props/C19Container.lean): get_record, record_frame, "
         "record_errors, record_keys, res_set_unknown, res_get_agree, res_set_get. Correspondence: run-level replay through Noisy.iterStep, clauses on the call log (under specified noise: within the range of the observations at x, "
-        "via C12's merged_value_within_range); container differential with mutable values mutated after recording (aliasing is heap behaviour: tested, not proved).",
+        "via C12's merged_value_within_range); container differential with mutable values mutated after recording (aliasing is heap behaviour: tested, not proved)."
+        " Whole call (Props/C19Opt.lean): optimize_recorded_iterates_observed, optimize_pairs_called, optimize_recorded_iterates_called, optimize_returned_called, optimize_returned_is_recorded_iterate, optimize_returned_is_incumbent, optimize_hist_length_while_running, optimize_func_count_final; every pool run replayed through whole.replay.",
    design="5 / C19", technique="Lean 4 invariants (run-level model + container model) + trace refinement and container differential"),
  "C08": dict(
    text="Theorems (Props/C08.lean) about Val.validate, a bit-exact transcription of BADS.__init__/_bounds_check_ on IEEE values (binary64 rounding Fl.rn of the two arithmetic expressions): checkCore_accepted / validate_norm "
@@ -119,13 +125,15 @@ CLAIMED.update({
    text="Theorems (Props/C16.lean): robustFit_shapes_agree (X, y and the noise vector have the same length at every retry), robustFit_defined (k consecutive failures then a success, fewer than 10 attempts: returns after k+1 attempts), "
         "initFit_terminates, updateFallback_restores, guarantees_survive_faults (C01/C03/C04 theorems hold verbatim: GP results are universally quantified oracle inputs there). Correspondence: LinAlgError injected into GP.fit at "
         "schedules of invocation indices (single, 2-4 consecutive, scattered; every index in the thorough tier), deterministic and noisy modes; the run must complete, attempt shapes vs the model, and the C01/C03/C04 run-level checks are "
-        "re-run on every faulted run. Failures are injected at the start of a fit and (fault_where = late) in the final posterior computation of a fit; constant objectives, slice-sampler restarts, large declared noise.",
+        "re-run on every faulted run. Failures are injected at the start of a fit and (fault_where = late) in the final posterior computation of a fit; constant objectives, slice-sampler restarts, large declared noise."
+        " Whole call (Props/C16Opt.lean): whole_call_guarantees_survive_fit_failures (budget, honest count, box and feasibility of every call, termination, mesh invariant, returned point evaluated, for every oracle stream); the completed runs WITH injected fit failures are replayed through whole.replay.",
    design="5 / C16", technique="Lean 4 theorems over the retry model + fault-schedule enumeration on real runs"),
  "C18": dict(
    text="Theorems (Props/C18.lean): es_returns_argmin (the proposed point is a surviving candidate of some generation with minimal acquisition value, for every population size), es_empty, mask_monotone, mask_le_index "
         "(first offspring from the best parent, unit steps, mask[k] <= k - for arbitrary final weights), hedge_sum_one, hedge_ge_floor, choose_defined / hedge_draw_defined, search_step_at_most_one_call. Correspondence: the real "
         "selection mask vs Srch.selectionMask for every (mu, lambda) up to 300 (thorough) and (2048, 2048); every ES call of traced runs (all survivors of all generations vs the proposed point); hedge probabilities of every search step. "
-        "Mask validity (length, indices < mu) is exhaustively tested up to the bound, not proved.",
+        "Mask validity (length, indices < mu) is exhaustively tested up to the bound, not proved."
+        " Whole call (Props/C18Opt.lean): search_evals_at_most_one, search_eval_is_pick, search_eval_in_search_set, no_search_no_eval, iteration_logs_search_eval_once, optimize_search_step; pool runs with plain options replayed through whole.replay.",
    design="5 / C18", technique="Lean 4 theorems over the accumulate/select, mask and hedge models + exhaustive mask sweep and trace differential"),
  "C20": dict(
    text="Theorems (Props/C20.lean) for every pair of option files, evaluation oracle, dimension and override set: user_wins, default_otherwise (the default expression evaluated for the instance's own D), env_has_user_values "
